@@ -538,7 +538,7 @@ func (m *c9matcher) matchSet(p *c9pat, v *model.V, b c9bind) []c9bind {
 // (expr) element (signature class only).
 func c9exoticElems(comps []*c9pat) bool {
 	for _, c := range comps {
-		if c.k == 'S' || c.k == 'E' && c.esrc != "(p)" {
+		if c.k == 'S' || c.k == 'E' && c.esrc != "(p)" && c.esrc != "(q)" {
 			return true
 		}
 	}
